@@ -1504,6 +1504,11 @@ class CodeGenerator(NodeVisitor):
         will be evaluated at runtime. Any other exception will also be
         evaluated at runtime for easier debugging.
         """
+        # if autoescape is decided at runtime, the constant can't be
+        # escaped (or not) at compile time
+        if frame.eval_ctx.volatile:
+            raise nodes.Impossible()
+
         const = node.as_const(frame.eval_ctx)
 
         if frame.eval_ctx.autoescape:
